@@ -459,3 +459,22 @@ Example C07_transitive_delete_witness :
     ([None; None; None; None; None; None], [[]; []; []; []; []; []], [], []).
 Proof. exact transitive_delete_witness. Qed.
 Print Assumptions C07_transitive_delete_witness.
+
+(* Models reached through a SLICE assignment on a list-based plain reference (Model/Slice.v): delete() finds the holders
+   of an object through its inverse bookkeeping; releasing the replaced elements and THEN linking the new ones (the code
+   since fix 98a932c) records exactly the elements of the new list - those replaced and assigned again included -, for
+   every pair of bounds; the former order (link, then release) is refuted on the model by the witness that failed on the
+   implementation:  c = [1; 2];  c[0:2] = [2; 3]. *)
+From PyecoreV Require Import Model.Slice Proofs.SliceProofs.
+Theorem C07_slice_assignment_keeps_the_inverse_bookkeeping :
+  forall (a b : option BinNums.Z) (ys l inv : list BinNums.Z),
+    NoDup l -> (forall x, In x inv <-> In x l) ->
+    forall x, In x (release_then_link (py_getslice a b l) ys inv) <-> In x (py_setslice a b ys l).
+Proof. exact release_then_link_exact. Qed.
+Print Assumptions C07_slice_assignment_keeps_the_inverse_bookkeeping.
+
+Theorem C07_link_then_release_refuted :
+  exists a b ys l x,
+    NoDup l /\ In x (py_setslice a b ys l) /\ ~ In x (link_then_release (py_getslice a b l) ys l).
+Proof. exact link_then_release_refuted. Qed.
+Print Assumptions C07_link_then_release_refuted.
